@@ -6,16 +6,13 @@ from contracts import printing, reg
 
 def run(R):
     common.load_ir(R)
-    # inside ZonedDateTime::printTo / OffsetDateTime::printTo the nested printTo calls are executed in place (transparent);
+    # inside ZonedDateTime::printTo / OffsetDateTime::printTo the nested printTo calls are executed in place (inline_in_callers);
     # TimeZone::printTo is an environment call here (its own behaviour is C08's): it appends one token
     reg.REG['ace_time::TimeZone::printTo(Print&) const'] = printing.Contract = None
     from vc.symex import Contract
     reg.REG['ace_time::TimeZone::printTo(Print&) const'] = Contract('ace_time::TimeZone::printTo(Print&) const', extern=True,
                                                                       model=printing._tz_print_model,
                                                                       note='environment here: appends the zone name (C08 covers which name)')
-    for n in ('ace_time::LocalDateTime::printTo(Print&) const', 'ace_time::TimeOffset::printTo(Print&) const',
-              'ace_time::OffsetDateTime::printTo(Print&) const', 'ace_time::LocalTime::printTo(Print&) const'):
-        reg.REG[n].transparent_in_callers = True
     names = common.names_for(R, 'C15')
     obs = check.verify_functions(R, names)
     obs += common.avr_pass(R, names)
